@@ -93,22 +93,91 @@ def is_int(a):
     return type(a) is int and a in G.base
 
 
-class St:
-    __slots__ = ("env", "iv", "facts", "ghost")
+class Env:
+    """memory cells, two-level: frame id -> {key -> atom}; key = (frame, local, *path)"""
+    __slots__ = ("f",)
 
     def __init__(self):
-        self.env = {}     # key -> atom
+        self.f = {}
+
+    def copy(self):
+        n = Env()
+        n.f = {fr: dict(d) for fr, d in self.f.items()}
+        return n
+
+    def get(self, key, default=None):
+        d = self.f.get(key[0])
+        if d is None:
+            return default
+        return d.get(key, default)
+
+    def __getitem__(self, key):
+        return self.f[key[0]][key]
+
+    def __setitem__(self, key, val):
+        d = self.f.get(key[0])
+        if d is None:
+            d = self.f[key[0]] = {}
+        d[key] = val
+
+    def __delitem__(self, key):
+        del self.f[key[0]][key]
+
+    def __contains__(self, key):
+        d = self.f.get(key[0])
+        return d is not None and key in d
+
+    def pop(self, key, default=None):
+        d = self.f.get(key[0])
+        if d is None:
+            return default
+        return d.pop(key, default)
+
+    def items(self):
+        for d in self.f.values():
+            yield from d.items()
+
+    def __iter__(self):
+        for d in self.f.values():
+            yield from d
+
+    def frame(self, fr):
+        return self.f.get(fr) or {}
+
+    def drop_frame(self, fr):
+        self.f.pop(fr, None)
+
+    def __len__(self):
+        return sum(len(d) for d in self.f.values())
+
+
+class St:
+    __slots__ = ("env", "iv", "facts", "ghost", "_idx")
+
+    def __init__(self):
+        self.env = Env()  # key -> atom
         self.iv = {}      # atom -> (lo, hi) refinement
         self.facts = {}   # (a, b) -> c   meaning  a - b <= c
         self.ghost = {}   # misc ghost cells (loop counters ...): key -> atom
+        self._idx = None  # lazily built index of facts by atom
 
     def copy(self):
         n = St()
-        n.env = dict(self.env)
+        n.env = self.env.copy()
         n.iv = dict(self.iv)
         n.facts = dict(self.facts)
         n.ghost = dict(self.ghost)
         return n
+
+    def fidx(self):
+        ix = self._idx
+        if ix is None or ix[0] != len(self.facts):
+            up, lo = {}, {}
+            for (x, y), c in self.facts.items():
+                up.setdefault(x, []).append((y, c))
+                lo.setdefault(y, []).append((x, c))
+            ix = self._idx = (len(self.facts), up, lo)
+        return ix
 
     # -- intervals --------------------------------------------------------
     def raw_iv(self, a):
@@ -117,20 +186,86 @@ class St:
             r = G.base.get(a)
         return r
 
+    def fwd_iv(self, a, depth=0):
+        """raw interval, re-evaluated forwards through the atom's definition (operands may have been refined since)"""
+        r = self.iv.get(a) or G.base.get(a)
+        if r is None or depth > 2:
+            return r
+        d = G.df.get(a)
+        if not d:
+            return r
+        k = d[0]
+        lo, hi = r
+        n = None
+        if k == "addc":
+            x = self.fwd_iv(d[1], depth + 1)
+            n = (x[0] + d[2], x[1] + d[2])
+        elif k == "divc":
+            x = self.fwd_iv(d[1], depth + 1)
+            if x[0] >= 0:
+                n = (x[0] // d[2], x[1] // d[2])
+            else:
+                m = max(abs(x[0]), abs(x[1])) // d[2]
+                n = (-m if x[0] < 0 else 0, m if x[1] > 0 else 0)
+        elif k == "remc":
+            x = self.fwd_iv(d[1], depth + 1)
+            if x[0] >= 0:
+                n = (0, min(x[1], d[2] - 1))
+            else:
+                n = (-(d[2] - 1), d[2] - 1 if x[1] > 0 else 0)
+        elif k == "mulc":
+            x = self.fwd_iv(d[1], depth + 1)
+            n = (x[0] * d[2], x[1] * d[2])
+        elif k == "shr_c":
+            x = self.fwd_iv(d[1], depth + 1)
+            n = (x[0] >> d[2], x[1] >> d[2])
+        elif k == "neg":
+            x = self.fwd_iv(d[1], depth + 1)
+            n = (-x[1], -x[0])
+        elif k == "add":
+            x, y = self.fwd_iv(d[1], depth + 1), self.fwd_iv(d[2], depth + 1)
+            n = (x[0] + y[0], x[1] + y[1])
+        elif k == "sub":
+            x, y = self.fwd_iv(d[1], depth + 1), self.fwd_iv(d[2], depth + 1)
+            n = (x[0] - y[1], x[1] - y[0])
+        elif k == "wrapped":
+            # value of a checked operation: exact when its overflow flag is known to be clear
+            ov = self.iv.get(d[4]) if len(d) > 4 else None
+            if ov == (0, 0):
+                x, y = self.fwd_iv(d[2], depth + 1), self.fwd_iv(d[3], depth + 1)
+                if d[1] == "Add":
+                    n = (x[0] + y[0], x[1] + y[1])
+                elif d[1] == "Sub":
+                    n = (x[0] - y[1], x[1] - y[0])
+                else:
+                    c = [x[0] * y[0], x[0] * y[1], x[1] * y[0], x[1] * y[1]]
+                    n = (min(c), max(c))
+        if n is not None:
+            lo, hi = max(lo, n[0]), min(hi, n[1])
+            if lo > hi:
+                return r
+        return (lo, hi)
+
     def get_iv(self, a):
-        """interval tightened by one level of difference facts"""
-        r = self.raw_iv(a)
+        """interval re-evaluated through definitions and tightened by one level of difference facts"""
+        r = self.fwd_iv(a) if a in G.df else self.raw_iv(a)
         if r is None:
             return None
         lo, hi = r
         if self.facts:
-            for (x, y), c in self.facts.items():
-                if x == a and y != a:
-                    ry = self.raw_iv(y)
+            _n, up, low = self.fidx()
+            u = up.get(a)
+            if u:
+                for y, c in u:
+                    c = self.facts.get((a, y), c)
+                    ry = self.iv.get(y) or G.base.get(y)
                     if ry is not None and ry[1] + c < hi:
                         hi = ry[1] + c
-                elif y == a and x != a:
-                    rx = self.raw_iv(x)
+            l = low.get(a)
+            if l:
+                for x, c in l:
+                    c = self.facts.get((x, a), c)
+                    rx = self.iv.get(x) or G.base.get(x)
                     if rx is not None and rx[0] - c > lo:
                         lo = rx[0] - c
         return (lo, hi)
@@ -152,15 +287,17 @@ class St:
         return True
 
     def _facts_ok(self, a, lo, hi):
-        for (x, y), c in self.facts.items():
-            if x == a:
-                ry = self.raw_iv(y)
-                if ry is not None and lo - ry[1] > c:
-                    return False
-            elif y == a:
-                rx = self.raw_iv(x)
-                if rx is not None and rx[0] - hi > c:
-                    return False
+        _n, up, low = self.fidx()
+        for y, c in up.get(a, ()):
+            c = self.facts.get((a, y), c)
+            ry = self.raw_iv(y)
+            if ry is not None and lo - ry[1] > c:
+                return False
+        for x, c in low.get(a, ()):
+            c = self.facts.get((x, a), c)
+            rx = self.raw_iv(x)
+            if rx is not None and rx[0] - hi > c:
+                return False
         return True
 
     def _backprop(self, a, lo, hi, depth):
@@ -267,9 +404,24 @@ class St:
             return True
         if da and da[0] == "min" and (self.diff_le(da[1], b, c, depth + 1) or self.diff_le(da[2], b, c, depth + 1)):
             return True
-        if depth < 2:
-            for (x, m), c1 in self.facts.items():
-                if x == a and m != b and self.diff_le(m, b, c - c1, depth + 2):
+        if db and db[0] == "add":
+            # a - (x + y) <= c  <=  a - x <= c + lo(y)   (and symmetrically)
+            x, y = db[1], db[2]
+            ry, rx = self.raw_iv(y), self.raw_iv(x)
+            if ry and self.diff_le(a, x, c + ry[0], depth + 1):
+                return True
+            if rx and self.diff_le(a, y, c + rx[0], depth + 1):
+                return True
+        if da and da[0] == "sub":
+            # (x - y) - b <= c  <=  x - b <= c + lo(y)
+            x, y = da[1], da[2]
+            ry = self.raw_iv(y)
+            if ry and self.diff_le(x, b, c + ry[0], depth + 1):
+                return True
+        if depth < 2 and self.facts:
+            for m, c1 in self.fidx()[1].get(a, ()):
+                c1 = self.facts.get((a, m), c1)
+                if m != b and self.diff_le(m, b, c - c1, depth + 2):
                     return True
         return False
 
@@ -425,6 +577,26 @@ def join_states(s1, s2, widen_with=None, thresholds=None):
                     old = n.facts.get((na, ng))
                     if old is None or c < old:
                         n.facts[(na, ng)] = c
+    # structural candidates: a sibling integer field bounds the ghost "initialised prefix" of an array cell
+    for key, i1 in s1.env.items():
+        if key[-1] != ("g", "init"):
+            continue
+        i2 = s2.env.get(key)
+        ni = n.env.get(key)
+        if i2 is None or ni is None or not (is_int(i1) and is_int(i2) and is_int(ni)):
+            continue
+        pref = key[:-2]
+        m = len(pref)
+        for k2, a in s1.env.items():
+            if len(k2) == m + 1 and k2[:m] == pref and k2 != key[:-1] and is_int(a):
+                b = s2.env.get(k2)
+                nb = n.env.get(k2)
+                if b is None or nb is None or not (is_int(b) and is_int(nb)) or nb == ni:
+                    continue
+                if s1.diff_le(a, i1, 0) and s2.diff_le(b, i2, 0):
+                    n.facts.setdefault((nb, ni), 0)
+                    if n.facts[(nb, ni)] > 0:
+                        n.facts[(nb, ni)] = 0
     # facts, Houdini-style: a candidate is a fact of either state over atoms stored in cells; it survives if
     # the other state entails it (intervals, facts, definitions)
     def cellof(st, key):
@@ -443,11 +615,7 @@ def join_states(s1, s2, widen_with=None, thresholds=None):
         for (a, b), c in sa.facts.items():
             ka, kb = rev.get(a), rev.get(b)
             if ka is None and kb is None:
-                if sb.diff_le(a, b, c):
-                    old = n.facts.get((a, b))
-                    if old is None or c < old:
-                        n.facts[(a, b)] = c
-                continue
+                continue        # facts between atoms no cell holds any more are garbage-collected at joins
             for k1 in (ka or [None])[:3]:
                 for k2 in (kb or [None])[:3]:
                     a2 = cellof(sb, k1) if k1 is not None else a
@@ -627,7 +795,12 @@ def widen_state(old, new, thresholds, level=0):
             yo = old.env.get(ky) if ky in old.env else old.ghost.get(ky)
             if xo is None or yo is None or not (is_int(xo) and is_int(yo)):
                 continue
-            if old.best_diff(xo, yo) < c:
+            co = old.facts.get((xo, yo))
+            if co is None and ky[-1] == ("g", "init") and c == 0 and xo == yo:
+                co = 0      # structural candidate (field <= initialised prefix): fixed finite candidate set
+            if co is None or co < c:
+                # only bounds the old head already carried explicitly (and that did not grow) survive widening:
+                # the set of facts at a loop head decreases monotonically from the second join on
                 del new.facts[(x, y)]
     if not sub:
         return new
